@@ -13,7 +13,7 @@ use crate::vid::*;
 pub enum Ev {
     Deliver { to: u16, data: Vec<u8>, from: u16 },
     Timer { node: usize, timer_nums: Vec<u128> },
-    Api { node: usize, what: u8, arg: [u128; 4] }, // 0 announce(arg id) 1 leave 2 crash
+    Api { node: usize, what: u8, arg: [u128; 4] }, // 0 announce(arg id) 1 leave 2 crash 3 add_broadcast(arg len, packed bytes)
 }
 
 pub struct Node {
@@ -186,6 +186,11 @@ impl Sim {
                 }
                 1 => {
                     self.call(node, Input::Leave);
+                }
+                3 => {
+                    // add_broadcast: arg[0] = length, arg[1] = the bytes packed little-endian
+                    let item: Vec<u8> = (0..arg[0] as usize).map(|i| ((arg[1] >> (8 * i)) & 255) as u8).collect();
+                    self.call(node, Input::AddBroadcast(item));
                 }
                 _ => self.nodes[node].crashed = true,
             },
